@@ -39,12 +39,14 @@ def Leaf.make (s : K) (a b k : Nat) : Leaf K → List (Cpt K) × Nat
   | .Xtal _ _ _ _ => ([], k)                            -- compound leaves are expanded before (`Net.expandAll`)
   | .FB _ _ _ _ => ([], k)
 
-/-- a leaf that is one netlist line whose stamp is defined: `R` and `Z` are stamped as 1/R, 1/Z -/
+/-- a leaf that is one netlist line whose stamp is defined: `R` and `Z` are stamped as 1/R, 1/Z, and `G` is
+    written as the resistance 1/G -/
 def Leaf.simple [DecidableEq K] : Leaf K → Bool
   | .Xtal _ _ _ _ => false
   | .FB _ _ _ _ => false
   | .R r => decide (r ≠ 0)
   | .Z z => decide (z ≠ 0)
+  | .G g => decide (g ≠ 0)          -- `R? n1 n2 {1/G}`: 1/0 is `zoo` in Lcapy, not a resistance
   | _ => true
 
 mutual
